@@ -181,6 +181,53 @@ func extractEmissions(p *core.Prog, r *core.Result, ops *opTable, rule string) [
 						bytes[k] = st.Val
 					}
 				}
+				// binary.LittleEndian.PutUintNN(scratch[lo:], v): NN/8 payload bytes of v, least significant first
+				synth := map[int64]payloadByte{}
+				for _, bi := range in.Block().Instrs {
+					if bi == in {
+						break
+					}
+					pc, ok := bi.(*ssa.Call)
+					if !ok {
+						continue
+					}
+					cal := core.Callee(pc)
+					if cal == nil || cal.Pkg == nil || cal.Pkg.Pkg.Path() != "encoding/binary" || cal.Signature.Recv() == nil || !strings.HasPrefix(cal.Name(), "PutUint") {
+						continue
+					}
+					if rn := recvNamed(cal); rn != "littleEndian" {
+						continue
+					}
+					width := int64(0)
+					switch cal.Name() {
+					case "PutUint16":
+						width = 2
+					case "PutUint32":
+						width = 4
+					case "PutUint64":
+						width = 8
+					}
+					pargs := pc.Call.Args
+					if width == 0 || len(pargs) != 3 {
+						continue
+					}
+					dst, ok := pargs[1].(*ssa.Slice)
+					if !ok || dst.X != ssa.Value(arr) {
+						continue
+					}
+					lo := int64(0)
+					if dst.Low != nil {
+						l, ok := core.ConstInt(dst.Low)
+						if !ok {
+							continue
+						}
+						lo = l
+					}
+					for i := int64(0); i < width && lo+i < n; i++ {
+						synth[lo+i] = payloadByte{Val: stripConv(pargs[2]), Shift: 8 * i}
+						bytes[lo+i] = pargs[2]
+					}
+				}
 				complete := true
 				for _, b := range bytes {
 					if b == nil {
@@ -192,7 +239,11 @@ func extractEmissions(p *core.Prog, r *core.Result, ops *opTable, rule string) [
 					continue
 				}
 				em := emission{Fn: fn, Instr: in, Site: in}
-				for _, b := range bytes[1:] {
+				for bi, b := range bytes[1:] {
+					if sp, ok := synth[int64(bi)+1]; ok {
+						em.Payload = append(em.Payload, sp)
+						continue
+					}
 					v := stripConv(b)
 					pb := payloadByte{Val: v}
 					if bo, ok := v.(*ssa.BinOp); ok && bo.Op == token.SHR {
@@ -324,45 +375,93 @@ func extractDecoder(p *core.Prog, r *core.Result, rule string) *decoderTable {
 			dt.OpValue = v
 		}
 	}
+	// the dispatch may be split over helpers that receive the opcode (decodeScalar(op) bool, ...): their parameter
+	// stands for the opcode read in decode
+	type dispatch struct {
+		fn *ssa.Function
+		op ssa.Value
+	}
+	var disp []dispatch
+	if dt.OpValue != nil {
+		disp = append(disp, dispatch{dec, dt.OpValue})
+	}
+	core.Instrs(dec, func(in ssa.Instruction) {
+		c, ok := in.(*ssa.Call)
+		if !ok {
+			return
+		}
+		h := core.Callee(c)
+		if h == nil || h.Blocks == nil || h.Pkg != dec.Pkg || h == dec {
+			return
+		}
+		for ai, a := range c.Call.Args {
+			rc, ok := a.(*ssa.Call)
+			if !ok || core.Callee(rc) != dt.readByte || ai >= len(h.Params) {
+				continue
+			}
+			if dt.OpValue != nil && a != dt.OpValue {
+				continue
+			}
+			prm := h.Params[ai]
+			n := 0
+			core.Instrs(h, func(hin ssa.Instruction) {
+				if b, ok := hin.(*ssa.BinOp); ok && b.Op == token.EQL && b.X == ssa.Value(prm) {
+					if _, ok := core.ConstInt(b.Y); ok {
+						n++
+					}
+				}
+			})
+			if n >= 2 && len(p.StaticCallers(h)) == 1 {
+				disp = append(disp, dispatch{h, prm})
+				if dt.OpValue == nil {
+					dt.OpValue = a
+				}
+			}
+		}
+	})
 	if dt.OpValue == nil {
 		r.Unk(rule, "pickle.(*Decoder).decode#dispatch", p.Pos(dec.Pos()), "no opcode dispatch (readByte result compared with constants) recognised")
 		return nil
 	}
-	for _, b := range dec.Blocks {
-		iff, ok := b.Instrs[len(b.Instrs)-1].(*ssa.If)
-		if !ok {
-			continue
-		}
-		cmp, ok := iff.Cond.(*ssa.BinOp)
-		if !ok || cmp.Op != token.EQL || cmp.X != dt.OpValue {
-			continue
-		}
-		k, ok := core.ConstInt(cmp.Y)
-		if !ok {
-			continue
-		}
-		entry := b.Succs[0]
-		dc := dt.Cases[k]
-		if dc == nil {
-			dc = &decCase{Op: k, Entry: entry}
-			dt.Cases[k] = dc
-		}
-		// default = false successor of the last comparison that is not itself a comparison block
-		els := b.Succs[1]
-		isCmp := false
-		if len(els.Instrs) > 0 {
-			if i2, ok := els.Instrs[len(els.Instrs)-1].(*ssa.If); ok {
-				if c2, ok := i2.Cond.(*ssa.BinOp); ok && c2.X == dt.OpValue {
-					isCmp = true
+	caseFn := map[*decCase]*ssa.Function{}
+	for _, dsp := range disp {
+		for _, b := range dsp.fn.Blocks {
+			iff, ok := b.Instrs[len(b.Instrs)-1].(*ssa.If)
+			if !ok {
+				continue
+			}
+			cmp, ok := iff.Cond.(*ssa.BinOp)
+			if !ok || cmp.Op != token.EQL || cmp.X != dsp.op {
+				continue
+			}
+			k, ok := core.ConstInt(cmp.Y)
+			if !ok {
+				continue
+			}
+			entry := b.Succs[0]
+			dc := dt.Cases[k]
+			if dc == nil {
+				dc = &decCase{Op: k, Entry: entry}
+				dt.Cases[k] = dc
+				caseFn[dc] = dsp.fn
+			}
+			// default = false successor of the last comparison that is not itself a comparison block
+			els := b.Succs[1]
+			isCmp := false
+			if len(els.Instrs) > 0 {
+				if i2, ok := els.Instrs[len(els.Instrs)-1].(*ssa.If); ok {
+					if c2, ok := i2.Cond.(*ssa.BinOp); ok && c2.X == dsp.op {
+						isCmp = true
+					}
 				}
 			}
-		}
-		if !isCmp {
-			dt.Default = els
+			if !isCmp && dsp.fn == dec {
+				dt.Default = els
+			}
 		}
 	}
 	for _, dc := range dt.Cases {
-		for _, b := range dec.Blocks {
+		for _, b := range caseFn[dc].Blocks {
 			if dc.Entry.Dominates(b) {
 				dc.Region = append(dc.Region, b)
 			}
@@ -390,6 +489,13 @@ func extractDecoder(p *core.Prog, r *core.Result, rule string) *decoderTable {
 				case dt.pop:
 					dc.Pops = append(dc.Pops, c)
 				default:
+					// a helper that pops one operand and hands it on (popGlobalPart() string) is a pop of the case
+					if k := popWrapperCount(dt, core.Callee(c)); k > 0 {
+						for i := 0; i < k; i++ {
+							dc.Pops = append(dc.Pops, c)
+						}
+						break
+					}
 					// a helper that reads k single bytes and combines them little-endian is a k-byte reader
 					if w := byteReaderWidth(dt, core.Callee(c)); w > 0 {
 						dc.Reads = append(dc.Reads, decRead{fmt.Sprintf("u%d", 8*w), c, w})
@@ -991,4 +1097,45 @@ func phiOfOpcodes(ph *ssa.Phi, ops *opTable) []int64 {
 		out = append(out, k)
 	}
 	return out
+}
+
+// popWrapperCount: a method of the Decoder that calls pop k >= 1 times, each outside any loop and before every return,
+// never pushes, and does not touch the stack otherwise (popGlobalPart() string; newObject() popping the arguments and
+// the global); 0 if it is not of that shape.
+func popWrapperCount(dt *decoderTable, h *ssa.Function) int {
+	if h == nil || h.Blocks == nil || h.Signature.Recv() == nil || recvNamed(h) != "Decoder" || h.Pkg == nil || h.Pkg.Pkg.Path() != pkgPickle {
+		return 0
+	}
+	var pops []ssa.CallInstruction
+	other := false
+	core.Instrs(h, func(in ssa.Instruction) {
+		switch x := in.(type) {
+		case ssa.CallInstruction:
+			switch core.Callee(x) {
+			case dt.pop:
+				pops = append(pops, x)
+			case dt.push:
+				other = true
+			}
+		case *ssa.Store:
+			if core.IsField(x.Addr, pkgPickle, "Decoder", "stack") {
+				other = true
+			}
+		}
+	})
+	if other || len(pops) == 0 || len(core.ReturnsOf(h)) == 0 {
+		return 0
+	}
+	for _, pc := range pops {
+		pi := pc.(ssa.Instruction)
+		if core.Reaches(pi.Block(), pi.Block(), false) {
+			return 0
+		}
+		for _, ret := range core.ReturnsOf(h) {
+			if !core.Dominates(pi, ret) {
+				return 0
+			}
+		}
+	}
+	return len(pops)
 }
